@@ -228,12 +228,17 @@ mod osu_objects {
 
     /// Wrapper to ensure that the data will not be moved
     pub(super) struct OsuObjects {
-        objects: Box<[OsuObject]>,
+        // A `Vec` instead of a `Box` on purpose. Moving a `Box` asserts
+        // unique access to its content which invalidates the references held
+        // by the difficulty objects. A `Vec` only carries a raw pointer.
+        objects: Vec<OsuObject>,
     }
 
     impl OsuObjects {
-        pub(super) const fn new(objects: Box<[OsuObject]>) -> Self {
-            Self { objects }
+        pub(super) fn new(objects: Box<[OsuObject]>) -> Self {
+            Self {
+                objects: objects.into_vec(),
+            }
         }
 
         pub(super) const fn is_empty(&self) -> bool {
